@@ -298,6 +298,9 @@ func (o *Obligation) queryOpts(models bool, extra []string, dropQuant bool) stri
 		if a.local && (fc.pkg == nil || fc.pkg.PkgPath != a.pkg) {
 			continue
 		}
+		if dropQuant && (strings.Contains(a.text, "(forall ") || strings.Contains(a.text, "(exists ")) {
+			continue // candidate search: quantified axioms go the way of the quantified hypotheses
+		}
 		b.WriteString("(assert " + a.text + ")\n")
 	}
 	for _, d := range fc.decls[:o.NDecl] {
